@@ -230,6 +230,7 @@ type RT struct {
 	ReadBatched   func(data []byte, batch int) ([]any, error)
 	GenericBuffer func(rows []any, cuts []int, opts ...parquet.RowGroupOption) (parquet.RowGroup, sort.Interface, error)
 	RowBuffer     func(rows []any, cuts []int, opts ...parquet.RowGroupOption) (parquet.RowGroup, sort.Interface, error)
+	SortingWrite  func(out io.Writer, rows []any, cuts []int, sortRun int64, opts ...parquet.WriterOption) error
 	New           func() any // pointer to a zero T
 	Deref         func(p any) any
 }
@@ -340,6 +341,16 @@ func mkRT[T any](name string) *RT {
 			}
 		}
 		return b, b, nil
+	}
+	rt.SortingWrite = func(out io.Writer, rows []any, cuts []int, sortRun int64, opts ...parquet.WriterOption) error {
+		w := parquet.NewSortingWriter[T](out, sortRun, opts...)
+		ts := unbox[T](rows)
+		for _, r := range batches(len(ts), cuts) {
+			if _, err := w.Write(ts[r[0]:r[1]]); err != nil {
+				return err
+			}
+		}
+		return w.Close()
 	}
 	rt.RowBuffer = func(rows []any, cuts []int, opts ...parquet.RowGroupOption) (parquet.RowGroup, sort.Interface, error) {
 		b := parquet.NewRowBuffer[T](opts...)
